@@ -21,6 +21,28 @@ type colAlt struct {
 
 const tblDate = "type Date time.Time\n" + dateCompanions
 
+const optDateMethods = `
+func (s *OptDate) Scan(src interface{}) error {
+	if src == nil {
+		*s = OptDate{}
+		return nil
+	}
+	t, ok := src.(time.Time)
+	if !ok {
+		return fmt.Errorf("OptDate: unexpected value %T", src)
+	}
+	*s = OptDate{D: Date(t), Valid: true}
+	return nil
+}
+
+func (s OptDate) Value() (driver.Value, error) {
+	if !s.Valid {
+		return nil, nil
+	}
+	return time.Time(s.D), nil
+}
+`
+
 func colAlts() []colAlt {
 	return []colAlt{
 		{label: "int", typ: "int"},
@@ -57,6 +79,9 @@ func colAlts() []colAlt {
 		{label: "ext.Pos", typ: "ext.Pos"},
 		{label: "Empty", typ: "Empty", declB: "type Empty struct{}\n"},
 		{label: "Profile", typ: "Profile", declB: "type Profile struct {\n\tNick  string `json:\"nick\"`\n\tAge   int\n\tLinks map[string]string\n\tTags  []string\n\tRole  Role\n\tAt    time.Time\n\tXY    [2]float64\n\tsecret int\n}\n"},
+		// jsonb structs whose first (resp. middle) field is not written in JSON
+		{label: "HiddenFirst", typ: "HiddenFirst", declB: "type HiddenFirst struct {\n\thidden int\n\tNick   string\n\tTags   []string\n}\n"},
+		{label: "DashMiddle", typ: "DashMiddle", declB: "type DashMiddle struct {\n\tNick string\n\tSkip int `json:\"-\"`\n\tTags []string\n}\n"},
 		{label: "Attrs", typ: "Attrs", declB: "type Attrs map[string]int\n"},
 		{label: "Profiles", typ: "Profiles", declB: "type Profiles []Pos2\n\ntype Pos2 struct {\n\tLabel string\n\tX     int\n}\n"},
 		{label: "Shape", typ: "Shape", declB: tblUnion},
@@ -72,6 +97,8 @@ func colAlts() []colAlt {
 		{label: "OptIdTeam-reversed", typ: "OptIdTeam", declB: "type OptIdTeam struct {\n\tID    IdTeam\n\tValid bool\n}\n"},
 		{label: "OptTags", typ: "OptTags", declB: "type OptTags struct {\n\tValid bool\n\tL     []string\n}\n"},
 		{label: "OptDate", typ: "OptDate", declB: tblDate + "\ntype OptDate struct {\n\tD     Date\n\tValid bool\n}\n"},
+		// the same wrapper with Scan and Value written by hand (sqlcrud writes them only for wrappers around ids)
+		{label: "OptDate-methods", typ: "OptDate", declB: tblDate + "\ntype OptDate struct {\n\tD     Date\n\tValid bool\n}\n" + optDateMethods},
 		{label: "Role", typ: "Role"},
 		{label: "Mood", typ: "Mood"},
 		{label: "ext.Level", typ: "ext.Level"},
@@ -166,6 +193,7 @@ func TablesWith(c explore.Chooser, defaultCol string) *prog.Program {
 	roleForm := s.Pick("role.form", "unexported-tail", "unexported-sentinel", "unexported-duplicate")
 	dirtyFirst := s.Pick("user.unexported-first", "no", "yes")
 	linkCol := s.Pick("link.extra-col", "none", "composite", "array", "json")
+	keyColName := s.Pick("name.key-column", "Name", "Émail")
 
 	var b, ext strings.Builder
 	b.WriteString("type IdUser int64\n\ntype UserId int64\n\ntype IdTeam int64\n\ntype TeamId int64\n\ntype IdGhost int64\n\n")
@@ -311,6 +339,10 @@ func TablesWith(c explore.Chooser, defaultCol string) *prog.Program {
 	}
 
 	rename := map[string]string{}
+	if keyColName != "Name" {
+		// a field name starting with a letter written on two bytes (the key / unique column of the directives)
+		rename["Name"] = keyColName
+	}
 	if tableName != "User" {
 		rename["User"] = tableName
 		rename["IdUser"] = "Id" + tableName
@@ -321,7 +353,7 @@ func TablesWith(c explore.Chooser, defaultCol string) *prog.Program {
 			body = regexp.MustCompile(`\b`+from+`\b`).ReplaceAllString(body, to)
 		}
 		var imps []string
-		for q, path := range map[string]string{"time.": "time", "sql.": "database/sql"} {
+		for q, path := range map[string]string{"time.": "time", "sql.": "database/sql", "driver.": "database/sql/driver", "fmt.": "fmt"} {
 			if regexp.MustCompile(`\b` + regexp.QuoteMeta(q)).MatchString(body) {
 				imps = append(imps, fmt.Sprintf("\t%q", path))
 			}
